@@ -7,6 +7,7 @@ import traceback
 from . import runner
 
 PROPS = {
+    "C03": ("c03", "other"),
     "C12": ("c12_c13", "translation_validation"),
     "C13": ("c12_c13", "translation_validation"),
 }
